@@ -96,6 +96,23 @@ def kc_runs(case, forms=("function",), dtypes=("float64",), beyond=False):
     return out
 
 
+def record_validate_judge(ctx, runs, each, label, batch=15000):
+    """record -> validate -> judge in batches of runs: the traces of one batch (tens of kilobytes each) are dropped
+    before the next is recorded -- the thorough tiers have hundreds of thousands of runs, and holding all of their
+    traces at once took more than 40 GB"""
+    from props import cluster_common as cc
+    refused = 0
+    for i in range(0, len(runs), batch):
+        traces = core.pmap(cc.record, runs[i:i + batch], chunk=100)
+        refused += sum(1 for tr in traces if tr.get("rejected_input"))
+        traces = [tr for tr in traces if not tr.get("rejected_input")]
+        for tr in traces:
+            each(tr)
+        judge(ctx, validate(ctx, traces, "%s, runs %d..%d" % (label, i + 1, min(len(runs), i + batch))))
+        del traces
+    ctx.notes["runs_refused_for_their_element_type"] = refused
+
+
 def validate(ctx, traces, label, shards=8):
     """TLC trace validation, sharded.  Returns list of (trace, failing (clause, l) set or None, stuck_l or None)."""
     if not traces:
